@@ -91,6 +91,11 @@ def evaluate(case):
         for j, (w, partial) in enumerate([(13, 0), (27, 3), (50, 500), (7, 1)]):
             uid = f"AAc{j % 2}_n{j}" if ut == "precinct" else f"AA9{j:02d}"
             units.append(E.make_unit(uid, "AA", f"AAc{j % 2}" if ut == "precinct" else uid, "u", None, (w // 3, w // 3, w - 1), (partial // 2, partial // 3, partial), 40.0 if partial else 0.0))
+        if ci % 2:
+            for j in range(3):
+                w2 = 30 + 10 * j
+                units.append(E.make_unit(f"ZZc0_z{j}" if ut == "precinct" else f"ZZ{j:03d}", "ZZ", "ZZc0" if ut == "precinct" else f"ZZ{j:03d}", "r", None, (w2 // 3, w2 // 3, w2 - 1), (w2, w2 // 2, int(1.9 * (w2 - 1))), 100.0))
+            cov["runs_with_baseline_units_of_other_states"] += 1
         if case.get("pointer"):
             for i, u in enumerate(units):
                 u["extra_baseline"] = {"baseline_dem_pres": u["b_dem"] + 2 + (i % 3)}
@@ -158,4 +163,4 @@ def evaluate(case):
     return {"violations": V, "cov": dict(cov), "outcome": sha(outs)[:16], "nontrivial": nontrivial, "transitions": runs}
 
 
-REQUIRED_COUNTERS = {"predictions_checked": 1000, "weighted_differs_from_unweighted": 50, "floor_binds": 100, "negative_swing": 100, "reporting_unit_excluded_from_fit": 20, "two_estimand_medians": 200, "baseline_pointer_runs": 50, "runs_with_unsorted_input_rows": 500}
+REQUIRED_COUNTERS = {"predictions_checked": 1000, "weighted_differs_from_unweighted": 50, "floor_binds": 100, "negative_swing": 100, "reporting_unit_excluded_from_fit": 20, "two_estimand_medians": 200, "baseline_pointer_runs": 50, "runs_with_unsorted_input_rows": 500, "runs_with_baseline_units_of_other_states": 500}
